@@ -4,9 +4,9 @@ PLAN = {
     "manifest": {
         "technique": "Verus (z3) on the label-merging functions of metrics-tracing-context extracted verbatim (Labels::extend / extend_from_labels / extend_from_labels_overwrite, the Visit callbacks, Labels::from_record, MetricsLayer::on_new_span / on_record, and the body of enhance_key's key-building closure), over an assumed IndexMap contract, with the precedence statements proved as lemmas over the merge contracts",
         "text": "Claimed at the function boundaries where the precedence rules live, for all label lists, span fields and filters: (a) Labels::extend applies its step to every entry of the other list, in order; extend_from_labels keeps the value of every name the receiving (inner) span already has and adopts the parent's value only for the other names; extend_from_labels_overwrite gives every name of the recorded set its new value and leaves the rest; both keep names unique. (b) record_str/bool/i64/u64 upsert (field name, rendered value). (c) on_new_span may only store `own fields, then parent's labels for the names it lacks` on the new span; on_record replaces the recorded names' values on a span that carries labels and stores exactly the recorded fields on one that does not. (d) the key built inside enhance_key keeps the metric's name, contains every admitted span label and every own label exactly once, own label winning on a shared name.",
-        "note": "ASSUMED: indexmap (insert = replace in place or append; entry().or_insert_with = keep or append; iteration in insertion order; retain keeps order; extend = insert each in order), the object pool hands out empty maps, tracing-core's Record::record visits every field once in order through the matching callback, SharedString spec-equality is string equality. The closure handed to `.then(..)` inside enhance_key is lifted to a function (captured variables become parameters; body verbatim). NOT decided: that tracing-subscriber calls on_new_span/on_record when it should and that the storing call happens at all (the contract constrains WHAT may be stored), which span is current on which thread (dispatcher/registry state), the with_labels plumbing through `&mut dyn FnMut`, record_debug (dyn Debug formatting), Allowlist::new. (e) IncludeAll admits everything; Allowlist admits exactly the labels whose name is in its set.",
+        "note": "ASSUMED: indexmap (insert = replace in place or append; entry().or_insert_with = keep or append; iteration in insertion order; retain keeps order; extend = insert each in order), the object pool hands out empty maps, tracing-core's Record::record visits every field once in order through the matching callback, SharedString spec-equality is string equality. The closure handed to `.then(..)` inside enhance_key is lifted to a function (captured variables become parameters; body verbatim). NOT decided: that tracing-subscriber calls on_new_span/on_record when it should and that the storing call happens at all (the contract constrains WHAT may be stored), which span is current on which thread (dispatcher/registry state), the with_labels plumbing through `&mut dyn FnMut`, record_debug (dyn Debug formatting), Allowlist::new. (f) register_counter / register_gauge / register_histogram hand the inner recorder the enhanced key if there is one, else the caller's key (obligation at the forwarding call; enhance_key's dispatcher lookup is an uninterpreted function there). (e) IncludeAll admits everything; Allowlist admits exactly the labels whose name is in its set.",
     },
-    "min_obligations": {"quick": 22, "thorough": 22},
+    "min_obligations": {"quick": 25, "thorough": 25},
     "assumptions": [
         "indexmap::IndexMap contract as stated in the template (insert / entry.or_insert_with / iteration order / retain / extend / unique names)",
         "lockfree-object-pool: pull_owned() yields an empty map",
